@@ -906,6 +906,8 @@ def work(item):
             cutline = next((raw for (a0, _, e0, raw) in f["lines"] if a0 <= cut < e0), b"")
             cl = cutline.decode("latin1").strip()
             ck = (dbc_first_token(cl) if fmt == "dbc" else ("[frame]" if cl.startswith("[") else re.split(r"[= (]", cl, 1)[0])) or "end-of-file"
+            if ck not in DBC_KEYWORDS and ck not in SYM_KEYS and ck not in ("[frame]", "end-of-file"):
+                ck = "continuation-or-other"          # e.g. a continuation line of a multi-line CM_ / enum
             for suffix, what, exp, obs in bad:
                 res["viol"].append(("%s-%s:%s-cut" % (fmt, suffix, ck), what, dict(file=f["name"], format=fmt, cut_after_bytes=cut,
                                                                         cut_file_b64=b64(f["data"][:cut])), exp, obs))
